@@ -76,6 +76,9 @@ func DecodeModule(
 			var c *wasm.CustomSection
 			if name != "name" {
 				if storeCustomSections || dwarfEnabled {
+					if err = ensureRemaining(r, uint64(limit)); err != nil {
+						return nil, fmt.Errorf("failed to read custom section name[%s]: %w", name, err)
+					}
 					c, err = decodeCustomSection(r, name, uint64(limit))
 					if err != nil {
 						return nil, fmt.Errorf("failed to read custom section name[%s]: %w", name, err)
